@@ -314,7 +314,8 @@ fn lean_session<C: embedded_cli::service::Autocomplete + embedded_cli::service::
     let mut cmd_buf = vec![0xAAu8; cfg.cmd].into_boxed_slice();
     let mut hist_buf = vec![0xAAu8; cfg.hist].into_boxed_slice();
     let sink = MonSink::new();
-    let proc = RecProc::new(cfg.script.clone(), cfg.set.parse_fn());
+    let mut proc = RecProc::new(cfg.script.clone(), cfg.set.parse_fn());
+    proc.pform = cfg.pform;
     let mut rig: Rig<'_, C> = Rig::build(&mut cmd_buf, &mut hist_buf, cfg.prompt, cfg.use_new, sink.clone(), proc).map_err(|e| format!("build: {:?}", e))?;
     for (i, op) in ops.iter().enumerate() {
         let r = match op {
@@ -390,6 +391,7 @@ pub fn decode_fuzz_input(data: &[u8]) -> Option<(SessionCfg, Vec<Op>)> {
         } else {
             vec![]
         },
+        pform: 0,
     };
     let mut ops = vec![];
     let mut i = 3;
@@ -489,6 +491,65 @@ fn lean_arrays<const N: usize, const M: usize>(ops: &[Op], default_builder: bool
     Ok((bytes, last.0, last.1))
 }
 
+/// `CliBuilder::default().build()`: no writer given, so the output goes to the library's `EmptyWriter` (error type Infallible).
+/// What is observable without a sink: the dispatched commands and the hooked line. Returns (names + item counts, line, cursor).
+fn empty_writer_run(ops: &[Op]) -> Result<(Vec<(Vec<u8>, usize)>, Vec<u8>, usize), String> {
+    use embedded_cli::cli::{CliBuilder, CliHandle};
+    use embedded_cli::command::RawCommand;
+    use embedded_cli::service::{CommandProcessor, ProcessError};
+    use embedded_cli::writer::EmptyWriter;
+    struct P(Vec<(Vec<u8>, usize)>);
+    impl CommandProcessor<EmptyWriter, core::convert::Infallible> for P {
+        fn process<'a>(&mut self, cli: &mut CliHandle<'_, EmptyWriter, core::convert::Infallible>, raw: RawCommand<'a>) -> Result<(), ProcessError<'a, core::convert::Infallible>> {
+            self.0.push((raw.name().as_bytes().to_vec(), raw.args().args().count()));
+            cli.writer().write_str("ok")?;
+            Ok(())
+        }
+    }
+    let mut p = P(vec![]);
+    let mut cli = CliBuilder::default().build().map_err(|e| format!("build: {:?}", e))?;
+    for op in ops {
+        let r = match op {
+            Op::Byte(b) => cli.process_byte::<RawCommand<'_>, _>(*b, &mut p),
+            Op::Write(c) => cli.write(|w| {
+                for call in c {
+                    w.write_str(&call.text)?;
+                }
+                Ok(())
+            }),
+            Op::SetPrompt(q) => cli.set_prompt(PROMPTS[*q]),
+        };
+        if r.is_err() {
+            return Err("an Infallible sink failed".into());
+        }
+    }
+    let (buf, valid, cursor) = cli.verif_editor().ok_or("editor missing")?;
+    Ok((p.0, buf[..valid.min(buf.len())].to_vec(), cursor))
+}
+
+/// what the same operations dispatch and leave on the line with a monitored sink and slice buffers of the default sizes
+fn slice_dispatches(ops: &[Op]) -> Result<(Vec<(Vec<u8>, usize)>, Vec<u8>, usize), String> {
+    use crate::sink::MonSink;
+    use embedded_cli::command::RawCommand;
+    let mut cmd_buf = vec![0u8; 40].into_boxed_slice();
+    let mut hist_buf = vec![0u8; 100].into_boxed_slice();
+    let sink = MonSink::new();
+    let proc = RecProc::new(vec![HAction { writes: vec![WCall { kind: WKind::Str, text: "ok".into() }], set_prompt: None, fail: false, reject: false }], None);
+    let mut rig: Rig<'_, RawCommand<'static>> = Rig::build(&mut cmd_buf, &mut hist_buf, 0, false, sink.clone(), proc).map_err(|e| format!("build: {:?}", e))?;
+    for (i, op) in ops.iter().enumerate() {
+        let r = match op {
+            Op::Byte(b) => rig.byte(*b),
+            Op::Write(c) => rig.write(c),
+            Op::SetPrompt(p) => rig.set_prompt(*p),
+        };
+        if let Err(e) = r {
+            return Err(format!("op {} returned {:?}", i, e));
+        }
+    }
+    let e = rig.editor();
+    Ok((rig.proc.log.iter().map(|r| (r.name.clone(), r.args.len())).collect(), e.line, e.cursor))
+}
+
 /// the `[u8; N]` Buffer implementation and the builder defaults (every other workload lends `&mut [u8]`)
 pub fn run_arrays(args: &Args, rep: &mut Report) {
     let total: u64 = if args.thorough { 200_000 } else { 16_000 };
@@ -517,6 +578,17 @@ pub fn run_arrays(args: &Args, rep: &mut Report) {
                 Ok(ts) if ts == *ta => {}
                 Ok(ts) => report(rep, args, "C05", "array-vs-slice-buffers", if ts.0 != ta.0 { "output" } else { "line" }, idx, ops.len(), J::s(show_ops(&ops)), format!("command/history buffers [u8; {}]/[u8; {}] vs slices of the same sizes: output {} vs {} bytes, line {:?}/{} vs {:?}/{} [{}]", sizes.0, sizes.1, ta.0.len(), ts.0.len(), crate::json::show_bytes(&ta.1), ta.2, crate::json::show_bytes(&ts.1), ts.2, show_ops(&ops))),
                 Err(e) => report(rep, args, "C05", "array-vs-slice-buffers", "slice-run-failed", idx, ops.len(), J::s(show_ops(&ops)), format!("slice-backed run failed where the array-backed one did not: {}", e)),
+            }
+        }
+        if which == 7 {
+            // the builder's default writer: same dispatches, same line as with a monitored sink
+            rep.evaluations += 1;
+            rep.count("c03.arrays.empty_writer_compared");
+            match (empty_writer_run(&ops), slice_dispatches(&ops)) {
+                (Ok(a), Ok(b)) if a == b => {}
+                (Ok(a), Ok(b)) => report(rep, args, "C05", "default-writer-vs-monitored-sink", if a.0 != b.0 { "dispatches" } else { "line" }, idx, ops.len(), J::s(show_ops(&ops)), format!("CliBuilder::default().build() (EmptyWriter) dispatched {} commands and ends on line {:?}/{}, a Cli with a monitored sink and buffers of the same sizes {} commands and {:?}/{} [{}]", a.0.len(), crate::json::show_bytes(&a.1), a.2, b.0.len(), crate::json::show_bytes(&b.1), b.2, show_ops(&ops))),
+                (Err(e), _) => report(rep, args, "C03", "invariant", "empty-writer", idx, ops.len(), J::s(show_ops(&ops)), format!("default-writer Cli: {} [{}]", e, show_ops(&ops))),
+                (_, Err(_)) => {}
             }
         }
         rep.evaluations += ops.len() as u64;
